@@ -136,7 +136,9 @@ def qe_asarray(qe, wave, waveunit):
     # Ensure qe is well-formed
     wave = np.asarray(wave)
     if not isinstance(qe, lentil.radiometry.Spectrum):
-        qe = np.asarray(qe)
+        # (in floating point: a boolean or small-integer efficiency vector
+        # would make the sum over wavelength wrap around in that type)
+        qe = np.asarray(qe, dtype=float)
         if qe.shape == ():
             qe = qe*np.ones(wave.size)
         else:
